@@ -15,7 +15,8 @@
                      content or one of the contents the run saves for it; crash_of ops t: t is a
                      prefix of ops, possibly followed by a partially performed write. *)
 From PV Require Import Lib.Bytes Model.FsProto Spec.CrashSpec
-  Proofs.FsProto Proofs.FsProtoFault Proofs.FsProtoVariants Proofs.FsProtoForeign.
+  Proofs.FsProto Proofs.FsProtoFault Proofs.FsProtoVariants Proofs.FsProtoForeign
+  Model.FsLinks Proofs.FsLinks.
 Open Scope N_scope.
 
 (* crash: for ALL lists of actions (saves of any files with any contents, mode fixes,
@@ -238,3 +239,277 @@ Example C05_foreign_bad_rejects :
   foreign_bad false (st_fs ex_tree) [ASave ex_pl [97]] ((tmp_name ex_pl, mkfile KReg [97] 420) :: st_fs ex_tree)
     = None.
 Proof. vm_compute. repeat split; reflexivity. Qed.
+
+
+(* ====================== symbolic links (Model/FsLinks.v) ======================
+
+   The saved file F itself, or a file given on the command line, may be a symbolic link.
+   Entry names are directory entries in the lstat view; for an entry of kind KSymlink f_data
+   is the entry name the link refers to.  lstep: Chmod and Open(O_TRUNC) follow a final link
+   (resolve, at most 40 links), OpenExcl/Rename/Unlink act on the link itself, Write/Close on
+   the inode of the descriptor.  save_one_l = loop body of SaveAutofixChanges (filename.Stat()
+   follows), check_exec_l = Pkglint.Check + checkExecutable for an argument (Lstat).
+   Plans: PNone; PFail k fl (system call k fails with its partial effect); PKill k n (the
+   process is killed at call k; a write at k has transferred its first n bytes): the final
+   state under PKill is the disk at that crash point.
+   l_named prog q: q is a saved file, the temporary name of one, or a checked argument. *)
+
+(* an entry the run does not name -- in particular the target of any link, however the link
+   is used -- is never changed: all initial trees, programs, faults and crash points *)
+Theorem C05_links_unnamed_untouched : forall (s : state) (prog : list laction) (plan : lplan) (q : path),
+  ~ l_named prog q ->
+  lookup q (st_fs (lw_st (lrun prog (init_lworld s plan)))) = lookup q (st_fs s).
+Proof. exact links_unnamed_untouched. Qed.
+Print Assumptions C05_links_unnamed_untouched.
+
+(* the target of a link (content, mode, kind) is never modified, truncated or chmod-ed, also
+   when the link itself is saved or given on the command line *)
+Theorem C05_symlink_target_untouched : forall (s : state) (prog : list laction) (plan : lplan) (F : path) (l : file),
+  lookup F (st_fs s) = Some l -> f_kind l = KSymlink -> ~ l_named prog (f_data l) ->
+  lookup (f_data l) (st_fs (lw_st (lrun prog (init_lworld s plan)))) = lookup (f_data l) (st_fs s).
+Proof. exact symlink_target_untouched. Qed.
+Print Assumptions C05_symlink_target_untouched.
+
+(* the same for every entry name on the chain of links that starts at F (chain n F fs = F, what
+   F refers to, ... , at most n links; resolve n F fs ends at a member of it: resolve_in_chain) *)
+Theorem C05_symlink_chain_untouched : forall (s : state) (prog : list laction) (plan : lplan) (F : path) (n : nat) (q : path),
+  In q (chain n F (st_fs s)) -> ~ l_named prog q ->
+  lookup q (st_fs (lw_st (lrun prog (init_lworld s plan)))) = lookup q (st_fs s).
+Proof. exact symlink_chain_untouched. Qed.
+Print Assumptions C05_symlink_chain_untouched.
+
+Theorem C05_resolve_in_chain : forall (n : nat) (p : path) (m : fsmap),
+  match resolve n p m with
+  | RFound q _ => In q (chain n p m) | RDangling q => In q (chain n p m) | RLoop => True
+  end.
+Proof. exact resolve_in_chain. Qed.
+Print Assumptions C05_resolve_in_chain.
+
+(* one save, from a world in any condition (any plan, any number of earlier calls) *)
+Theorem C05_save_one_l_frame : forall (w : lworld) (f : path) (new : str) (q : path),
+  q <> f -> q <> tmp_name f ->
+  lookup q (st_fs (lw_st (save_one_l f new w))) = lookup q (st_fs (lw_st w)).
+Proof. exact save_one_l_frame. Qed.
+Print Assumptions C05_save_one_l_frame.
+
+(* the judge for snapshots of real runs (complete, killed, faulty) is sound *)
+Theorem C05_l_unnamed_changed_sound : forall (init : fsmap) (prog : list laction) (cur : fsmap),
+  l_unnamed_changed init prog cur = None ->
+  forall q, ~ l_named prog q -> lookup q cur = lookup q init.
+Proof. exact l_unnamed_changed_sound. Qed.
+Print Assumptions C05_l_unnamed_changed_sound.
+
+(* NOT the code: a link as save target written in place through the link -- the frame
+   statement is false (killed after the open, the target is an empty file) *)
+Theorem C05_write_through_link_refuted :
+  ~ (forall (s : state) (f : path) (new : str) (plan : lplan) (q : path), q <> f -> q <> tmp_name f ->
+       lookup q (st_fs (lw_st (save_through_link f new (init_lworld s plan)))) = lookup q (st_fs s)).
+Proof. exact write_through_link_refuted. Qed.
+Print Assumptions C05_write_through_link_refuted.
+
+(* what the code does to a link that is saved, no fault: the link is replaced by a regular
+   file that carries the mode of the link's target; the target is untouched *)
+Theorem C05_save_replaces_link : forall (s : state) (F T : path) (l t : file) (new : str),
+  lookup F (st_fs s) = Some l -> f_kind l = KSymlink -> f_data l = T ->
+  lookup T (st_fs s) = Some t -> f_kind t = KReg ->
+  lookup (tmp_name F) (st_fs s) = None -> F <> T -> tmp_name F <> T ->
+  let w := save_one_l F new (init_lworld s PNone) in
+  lookup F (st_fs (lw_st w)) = Some (mkfile KReg new (f_mode t)) /\
+  lookup T (st_fs (lw_st w)) = Some t /\
+  lookup (tmp_name F) (st_fs (lw_st w)) = None /\
+  lw_stderr w = [] /\ lw_saved w = true.
+Proof. exact save_replaces_link. Qed.
+Print Assumptions C05_save_replaces_link.
+
+(* --- examples: the hypotheses are satisfiable, the model does what is claimed --- *)
+Definition lk_L : path := [76].                     (* "L" *)
+Definition lk_T : path := [84].                     (* "T" *)
+Definition lk_X : path := [88].                     (* "X" *)
+Definition lk_tree : state :=
+  mkstate [(lk_L, mkfile KSymlink lk_T 511);        (* L -> T *)
+           (lk_T, mkfile KReg [111; 108; 100] 384); (* T: "old", 0600 *)
+           (lk_X, mkfile KReg [120] 493)]           (* X: 0755 *)
+          [] 18.
+Definition lk_prog : list laction := [LSave lk_L [110; 101; 119]; LCheckExec lk_X].
+Definition lk_after : lworld := lrun lk_prog (init_lworld lk_tree PNone).
+
+Example C05_link_save_example :
+  lookup lk_L (st_fs (lw_st lk_after)) = Some (mkfile KReg [110; 101; 119] 384) /\
+  lookup lk_T (st_fs (lw_st lk_after)) = Some (mkfile KReg [111; 108; 100] 384) /\
+  lookup lk_X (st_fs (lw_st lk_after)) = Some (mkfile KReg [120] 420) /\
+  lookup (tmp_name lk_L) (st_fs (lw_st lk_after)) = None /\
+  lw_stderr lk_after = [] /\ lw_saved lk_after = true /\
+  List.length (lw_trace lk_after) = 6%nat /\
+  l_unnamed_changed (st_fs lk_tree) lk_prog (st_fs (lw_st lk_after)) = None.
+Proof. vm_compute. repeat split; reflexivity. Qed.
+
+(* a link L to an executable T given on the command line: Lstat sees a link, no system call
+   is issued at all *)
+Definition lk_tree_x : state :=
+  mkstate [(lk_L, mkfile KSymlink lk_T 511); (lk_T, mkfile KReg [111; 108; 100] 493)] [] 18.
+
+Example C05_link_argument_example :
+  lw_trace (lrun [LCheckExec lk_L] (init_lworld lk_tree_x PNone)) = [] /\
+  st_fs (lw_st (lrun [LCheckExec lk_L] (init_lworld lk_tree_x PNone))) = st_fs lk_tree_x.
+Proof. vm_compute. split; reflexivity. Qed.
+
+(* the judge is not vacuous: it rejects the tree the through-the-link variant leaves at the
+   crash point after the open *)
+Example C05_l_unnamed_changed_rejects :
+  l_unnamed_changed (st_fs lk_tree) [LSave lk_L [110; 101; 119]]
+    (st_fs (lw_st (save_through_link lk_L [110; 101; 119] (init_lworld lk_tree (PKill 1 0))))) = Some lk_T.
+Proof. vm_compute. reflexivity. Qed.
+
+(* the frame from a world in any condition (any earlier calls, any plan, any open descriptors) *)
+Theorem C05_lrun_frame : forall (prog : list laction) (w : lworld) (q : path),
+  ~ l_named prog q ->
+  lookup q (st_fs (lw_st (lrun prog w))) = lookup q (st_fs (lw_st w)).
+Proof. exact lrun_frame. Qed.
+Print Assumptions C05_lrun_frame.
+
+(* the boolean used by the judge decides l_named *)
+Theorem C05_l_namedb_spec : forall (prog : list laction) (q : path),
+  l_namedb prog q = true <-> l_named prog q.
+Proof. exact l_namedb_spec. Qed.
+Print Assumptions C05_l_namedb_spec.
+
+(* ====================================================================================
+   "... is reported on stderr": the rendering of the failures into the Logger.
+
+   Model/SaveLog.v   report_one / report_all: every entry (kind, path) of w_stderr is one call
+                     Logger.TechErrorf(path, "<Cannot write|Cannot overwrite with autofixed
+                     content|Cannot clear executable bits>: %s", err) (Model/Logger.v tech_error);
+                     stderr_bytes / stdout_bytes = every byte the SeparatorWriter of that stream
+                     accepted (passed on, or still in its line buffer); tech_line / error_line =
+                     escapePrintable("ERROR: " + path + ": " + msg + "\n"); sep_pending = the
+                     blank line a SeparatorWriter in state "separator wanted" puts in front
+                     (never the case for stderr in pkglint; kept so that the statements hold for
+                     ALL logger states); at_line_start = no partial line buffered, no separator
+                     pending (true of the initial writer, and again after every TechErrorf).
+   ==================================================================================== *)
+From PV Require Import Model.Escape Model.Logger Model.SaveLog Proofs.SaveLog.
+
+(* TechErrorf, for ALL logger states (any suppressDiag/suppressExpl, counters, writer
+   states), any location and message.  tech_error has no `opts` argument at all -- no
+   option (--only, -q, -g, --source, --explain, --autofix, --show-autofix) can be read;
+   `o` and `werror` (-Werror) are quantified only to say so.  Everything but the stderr
+   writer is untouched (so is the exit status); the stderr writer accepts exactly the ERROR
+   line, drops nothing, and has flushed everything to the underlying stream afterwards. *)
+Theorem C05_tech_error_stream : forall (o : opts) (werror : bool) (l : logger) (loc msg : str),
+  let l' := Model.Logger.tech_error l loc msg in
+  l' = set_err l (l_err l') /\
+  l_out l' = l_out l /\ stdout_bytes l' = stdout_bytes l /\
+  l_errors l' = l_errors l /\ l_warnings l' = l_warnings l /\ l_notes l' = l_notes l /\
+  l_suppress_diag l' = l_suppress_diag l /\ l_suppress_expl l' = l_suppress_expl l /\
+  exit_status werror l' = exit_status werror l /\
+  stderr_bytes l' = stderr_bytes l ++ sep_pending (l_err l) ++ tech_line loc msg /\
+  (exists rest, tech_line loc msg = [69; 82; 82; 79; 82; 58; 32] ++ rest) /\
+  at_line_start (l_err l') /\ sw_state (l_err l') <> 1 /\
+  sw_out (l_err l') = stderr_bytes l ++ sep_pending (l_err l) ++ tech_line loc msg /\
+  (at_line_start (l_err l) -> sw_out (l_err l') = sw_out (l_err l) ++ tech_line loc msg).
+Proof. exact tech_error_stream. Qed.
+Print Assumptions C05_tech_error_stream.
+
+Theorem C05_at_line_start_initial : at_line_start new_sw /\ at_line_start (l_err new_logger).
+Proof. exact (conj at_line_start_new_sw at_line_start_new_sw). Qed.
+Print Assumptions C05_at_line_start_initial.
+
+(* location and message printable ASCII (tab, newline allowed): the line is the plain text *)
+Theorem C05_tech_line_printable : forall (loc msg : str),
+  Forall (fun b => xprint b = true) loc -> Forall (fun b => xprint b = true) msg ->
+  tech_line loc msg =
+  [69; 82; 82; 79; 82; 58; 32] ++ (loc ++ (if nonempty_list loc then [58; 32] else [])) ++ msg ++ [10].
+Proof. exact tech_line_printable. Qed.
+Print Assumptions C05_tech_line_printable.
+
+(* the fault theorem joined with the Logger: for every program, tree, fault plan, every
+   logger state l0, every error text: if the failing call was reached, stderr has grown;
+   stdout, the counters, the exit status and the suppress flags are as before; the bytes
+   added to stderr are exactly the ERROR lines of the entries of w_stderr, in order (after
+   the pending separator, if any); each entry's line occurs in them; and when l0's stderr
+   writer is at a line start, all of it has reached the underlying stream. *)
+Theorem C05_save_failure_reported_on_stderr : forall (s : state) (prog : list action) (k : nat) (fl : fault)
+    (o : opts) (werror : bool) (l0 : logger) (detail : errkind * path -> str),
+  let w := run prog (init_world s (Some (k, fl))) in
+  let l := report_all l0 (w_stderr w) detail in
+  ((k < w_count w)%nat -> stderr_bytes l <> stderr_bytes l0) /\
+  stdout_bytes l = stdout_bytes l0 /\ l_out l = l_out l0 /\
+  l_errors l = l_errors l0 /\ l_warnings l = l_warnings l0 /\ l_notes l = l_notes l0 /\
+  exit_status werror l = exit_status werror l0 /\
+  l_suppress_diag l = l_suppress_diag l0 /\ l_suppress_expl l = l_suppress_expl l0 /\
+  stderr_bytes l = stderr_bytes l0 ++ (match w_stderr w with [] => [] | _ :: _ => sep_pending (l_err l0) end)
+                                   ++ report_lines (w_stderr w) detail /\
+  (forall e, In e (w_stderr w) ->
+     exists a b, stderr_bytes l = stderr_bytes l0 ++ a ++ error_line e (detail e) ++ b) /\
+  ((k < w_count w)%nat -> at_line_start (l_err l)) /\
+  (at_line_start (l_err l0) ->
+     at_line_start (l_err l) /\ sw_out (l_err l) = sw_out (l_err l0) ++ report_lines (w_stderr w) detail).
+Proof. exact save_failure_reported_on_stderr. Qed.
+Print Assumptions C05_save_failure_reported_on_stderr.
+
+(* the same for any list of failures *)
+Theorem C05_report_all_on_stderr : forall (o : opts) (werror : bool) (l0 : logger)
+    (es : list (errkind * path)) (detail : errkind * path -> str),
+  let l := report_all l0 es detail in
+  (es <> [] -> stderr_bytes l <> stderr_bytes l0) /\
+  stdout_bytes l = stdout_bytes l0 /\ l_out l = l_out l0 /\
+  l_errors l = l_errors l0 /\ l_warnings l = l_warnings l0 /\ l_notes l = l_notes l0 /\
+  exit_status werror l = exit_status werror l0 /\
+  l_suppress_diag l = l_suppress_diag l0 /\ l_suppress_expl l = l_suppress_expl l0 /\
+  stderr_bytes l = stderr_bytes l0 ++ (match es with [] => [] | _ :: _ => sep_pending (l_err l0) end)
+                                   ++ report_lines es detail /\
+  (forall e, In e es ->
+     exists a b, stderr_bytes l = stderr_bytes l0 ++ a ++ error_line e (detail e) ++ b) /\
+  (es <> [] -> at_line_start (l_err l)) /\
+  (at_line_start (l_err l0) ->
+     at_line_start (l_err l) /\ sw_out (l_err l) = sw_out (l_err l0) ++ report_lines es detail).
+Proof. exact report_all_on_stderr. Qed.
+Print Assumptions C05_report_all_on_stderr.
+
+(* reporting through Logf(Error, tmpName, "", ...) instead is NOT such a report: with
+   suppressDiag set (left set by Logger.Relevant after an Autofix.Apply whose diagnostic is
+   not selected by --only: reached by `log_run`) nothing is written anywhere; otherwise the
+   line goes to stdout and is counted as an error (exit status 1). *)
+Theorem C05_logf_report_refuted :
+  (* suppressDiag set: the failure is reported nowhere *)
+  (forall (o : opts) (l : logger) (e : errkind * path) (detail : str),
+     l_suppress_diag l = true ->
+     stderr_bytes (report_one_logf o l e detail) = stderr_bytes l /\
+     stdout_bytes (report_one_logf o l e detail) = stdout_bytes l) /\
+  (* such a state is reached: --autofix --only foo, after one Autofix.Apply of a diagnostic "bar" *)
+  (exists (o : opts) (l : logger) (e : errkind * path) (detail : str),
+     l = log_run o [ex_fix_event] /\ l_suppress_diag l = true /\
+     stderr_bytes (report_one_logf o l e detail) = stderr_bytes l /\
+     stdout_bytes (report_one_logf o l e detail) = stdout_bytes l /\
+     stderr_bytes (report_one l e detail) = stderr_bytes l ++ error_line e detail /\
+     error_line e detail = ex_error_text) /\
+  (* suppressDiag clear: the line goes to stdout and counts as an error *)
+  (forall (o : opts) (l : logger) (e : errkind * path) (detail : str),
+     l_suppress_diag l = false ->
+     stderr_bytes (report_one_logf o l e detail) = stderr_bytes l /\
+     stdout_bytes (report_one_logf o l e detail) <> stdout_bytes l /\
+     l_errors (report_one_logf o l e detail) = l_errors l + 1) /\
+  (exists (o : opts) (l : logger) (e : errkind * path) (detail : str),
+     l_suppress_diag l = false /\
+     stderr_bytes (report_one_logf o l e detail) = stderr_bytes l /\
+     stdout_bytes (report_one_logf o l e detail) = stdout_bytes l ++ ex_error_text /\
+     l_errors (report_one_logf o l e detail) = l_errors l + 1 /\
+     exit_status false l = 0 /\ exit_status false (report_one_logf o l e detail) = 1).
+Proof. exact logf_report_refuted. Qed.
+Print Assumptions C05_logf_report_refuted.
+
+Example C05_tech_error_example :
+  let l := Model.Logger.tech_error new_logger ex_tmp ([67; 97; 110; 110; 111; 116; 32; 119; 114; 105; 116; 101; 58; 32] ++ ex_detail) in
+  stderr_bytes l = ex_error_text /\ sw_out (l_err l) = ex_error_text /\ stdout_bytes l = [] /\
+  l_errors l = 0 /\ exit_status true l = 0.
+Proof. exact tech_error_example. Qed.
+Print Assumptions C05_tech_error_example.
+
+Example C05_report_one_example :
+  report_one new_logger ex_entry ex_detail =
+  Model.Logger.tech_error new_logger ex_tmp ([67; 97; 110; 110; 111; 116; 32; 119; 114; 105; 116; 101; 58; 32] ++ ex_detail) /\
+  error_line ex_entry ex_detail = ex_error_text /\
+  stderr_bytes (report_one ex_suppressed ex_entry ex_detail) = ex_error_text /\
+  stdout_bytes (report_one ex_suppressed ex_entry ex_detail) = [].
+Proof. exact report_one_example. Qed.
+Print Assumptions C05_report_one_example.
